@@ -261,7 +261,7 @@ class Translator(object):
         raise NotTranslatable('boolean operator %s' % t.decl().name())
 
 
-def check(terms, bounds, timeout_ms, max_width=200):
+def check(terms, bounds, rlimit, max_width=200):
     """Decide the conjunction of `terms`. Returns ('unsat'|'sat'|'unknown', model dict|None, width)."""
     tr = Translator(bounds)
     for t in terms:
@@ -271,7 +271,7 @@ def check(terms, bounds, timeout_ms, max_width=200):
         raise NotTranslatable('needs %d-bit vectors' % W)
     tr.W = W
     s = z3.SolverFor('QF_BV')
-    s.set('timeout', timeout_ms)
+    s.set('rlimit', rlimit)
     for t in terms:
         s.add(tr.tr_bool(t))
     r = s.check()
